@@ -35,7 +35,7 @@ func TestStress(t *testing.T) {
 		}
 		fm := []string{"nclient4", "nclient6"}[i%2]
 		rng := r.Rand("stress", i)
-		o := cstress.Opts{Callers: 8, PerCaller: 3 + rng.IntN(4), XidPool: 2 + rng.IntN(9), CloseMid: i%4 != 3, T: time.Duration(2+rng.IntN(6)) * time.Millisecond, Cfg: rng.IntN(cli.NCfg)}
+		o := cstress.Opts{Callers: 8, PerCaller: 3 + rng.IntN(4), XidPool: 2 + rng.IntN(9), CloseMid: i%4 != 3, T: time.Duration(2+rng.IntN(6)) * time.Millisecond, Cfg: rng.IntN(cli.NCfg), Tries: []int{1, 1, 2, 3, 1, 1}[i%6]}
 		h := cstress.Run(fam(fm), rng, o)
 		r.Eval(1)
 		if len(h.Stuck) > 0 && only < 0 {
